@@ -263,3 +263,54 @@ def try_eval(prog, module, expr):
         return module_eval(prog, module, expr)
     except NormError:
         return None
+
+
+# ---------------------------------------------------------------------------
+# composition of URI components (shared by C16.c and C17.e)
+
+
+def join_site(prog, fi, e):
+    """Interpret `e` as the composition of a URI component from a sequence:
+    returns (effective separator, leading, quote function name, iterated expr) for
+      SEP.join(Q(x) for x in xs)            -> (SEP, False, Q, xs)
+      "".join(SEP + Q(x) for x in xs)       -> (SEP, True,  Q, xs)
+      SEP + SEP.join(Q(x) for x in xs)      -> (SEP, True,  Q, xs)
+    optionally followed by `or <default>`."""
+    if isinstance(e, ast.BoolOp) and isinstance(e.op, ast.Or):
+        e = e.values[0]
+    lead = None
+    ops = plus_operands(e)
+    if len(ops) == 2:
+        lead = try_eval(prog, fi.module, ops[0])
+        e = ops[1]
+    m = match("$sep.join($elt for $x in $xs)", e) or match("$sep.join([$elt for $x in $xs])", e)
+    if m is None or not isinstance(m["x"], ast.Name):
+        return None
+    sep = try_eval(prog, fi.module, m["sep"])
+    eops = plus_operands(m["elt"])
+    call = eops[-1]
+    if not (isinstance(call, ast.Call) and isinstance(call.func, ast.Name) and len(call.args) == 1 and isinstance(call.args[0], ast.Name) and call.args[0].id == m["x"].id):
+        return None
+    if len(eops) == 2 and sep == "" and lead is None:
+        pre = try_eval(prog, fi.module, eops[0])
+        if isinstance(pre, str) and pre:
+            return pre, True, call.func.id, m["xs"]
+        return None
+    if len(eops) == 1 and isinstance(sep, str) and lead in (None, sep):
+        return sep, lead is not None, call.func.id, m["xs"]
+    return None
+
+
+def urlunparse_slots(fi):
+    """{'path': expr, 'query': expr} as passed to urllib.parse.urlunparse / urlunsplit in get_request_uri, with the CFG node of the call."""
+    cfg = cfg_of(fi)
+    out = []
+    for n in walk_no_nested(fi.node):
+        if isinstance(n, ast.Call):
+            nm = ext_name(fi.module, n)
+            if nm in ("urllib.parse.urlunparse", "urllib.parse.urlunsplit") and len(n.args) == 1:
+                t = resolve_at(fi, n.args[0], cfg.loc1(n))
+                want = 6 if nm.endswith("urlunparse") else 5
+                if isinstance(t, (ast.Tuple, ast.List)) and len(t.elts) == want:
+                    out.append((n, {"path": t.elts[2], "query": t.elts[4 if want == 6 else 3]}))
+    return out
